@@ -7,17 +7,17 @@ Check (C13.C13_bw_accept_iff : forall fp o sizes input, opts_ok o = true ->
   verdict (bw_write fp o sizes input) = rule_verdict bw_val_class (o_sort_all o) sizes input
   /\ verdict (bw_write_multipass fp o sizes input) = rule_verdict bw_val_class (o_sort_all o) sizes input
   /\ (rule_verdict bw_val_class (o_sort_all o) sizes input = Ok tt
-      <-> input <> [] /\ stream_ok bw_good_val bw_good_pair (o_sort_all o) sizes None input)).
+      <-> input <> [] /\ stream_ok bw_good_val bw_good_pair (o_sort_all o) sizes [] None input)).
 Check (C13.C13_bb_accept_iff : forall sort_all sizes (items : list (name * entry)),
   serial bb_check_val sort_all sizes (ok_lines items) = rule_verdict bb_val_class sort_all sizes items
   /\ (rule_verdict bb_val_class sort_all sizes items = Ok tt
-      <-> items <> [] /\ stream_ok bb_good_val bb_good_pair sort_all sizes None items)).
+      <-> items <> [] /\ stream_ok bb_good_val bb_good_pair sort_all sizes [] None items)).
 Check (C13.C13_position_independent : forall fp o sizes pre x post k, opts_ok o = true ->
-  item_class bw_val_class (o_sort_all o) sizes (last_opt pre) x (hd_error post) = Some k ->
+  item_class bw_val_class (o_sort_all o) sizes (seen_at [] None pre) (last_opt pre) x (hd_error post) = Some k ->
   exists k', verdict (bw_write fp o sizes (pre ++ x :: post)) = Err k'
              /\ verdict (bw_write_multipass fp o sizes (pre ++ x :: post)) = Err k').
 Check (C13.C13_bb_position_independent : forall sort_all sizes pre (x : name * entry) post k,
-  item_class bb_val_class sort_all sizes (last_opt pre) x (hd_error post) = Some k ->
+  item_class bb_val_class sort_all sizes (seen_at [] None pre) (last_opt pre) x (hd_error post) = Some k ->
   exists k', serial bb_check_val sort_all sizes (ok_lines (pre ++ x :: post)) = Err k').
 Check (C13.C13_bw_text : forall fok o sizes text,
   (all_ok (bw_lines fok text) = None -> exists k, bw_text_serial fok o sizes text = Err k)
